@@ -598,7 +598,7 @@ func evExec(w *world, f []string) (res string, ok bool) {
 		}
 	} else if strings.HasPrefix(f[0], "evdb") {
 		return debExec(w, f), true
-	} else if f[0] == "evq" || strings.HasPrefix(f[0], "evqfire") || strings.HasPrefix(f[0], "evqrun") || f[0] == "evqhandled" {
+	} else if strings.HasPrefix(f[0], "evq") {
 		return evqExec(w, f), true
 	} else if !strings.HasPrefix(f[0], "ev") && !strings.HasPrefix(f[0], "e2e") {
 		return "", false
